@@ -437,10 +437,8 @@ def check_bind_if_absent(ctx):
     if isinstance(t0, ast.Tuple) and len(t0.elts) == 2 and isinstance(t0.elts[0], ast.Name):
         flagvar = t0.elts[0].id
     tnode = next((n for n in g.live_nodes() if n.kind == "test" and flagvar and norm(n.ast) in (flagvar, f"not {flagvar}")), None)
-    need(tnode is not None, "C01.5: test of the previous binding's `#` flag not found")
-    pos = not norm(tnode.ast).startswith("not ")
+    pos = tnode is None or not norm(tnode.ast).startswith("not ")
     true_edge = "t" if pos else "f"
-    reach_wo = g.reach_from(g.entry, avoid=None)
     # nodes reachable without taking the `previously #` edge
     seen, stack = set(), [g.entry]
     while stack:
@@ -449,7 +447,7 @@ def check_bind_if_absent(ctx):
             continue
         seen.add(n.id)
         for k, s_ in n.succ:
-            if n is tnode and k == true_edge:
+            if tnode is not None and n is tnode and k == true_edge:
                 continue
             stack.append(s_)
     for sn in stores:
@@ -460,7 +458,7 @@ def check_bind_if_absent(ctx):
         v = st.value
         flag = norm(v.elts[0]) if isinstance(v, ast.Tuple) and len(v.elts) == 2 else None
         in_handler = any(h.id in dom[sn.id] for h in hnodes)
-        on_refine_side = sn.id not in seen
+        on_refine_side = tnode is not None and sn.id not in seen
         if flag != "broadcastable":
             ctx.bad("C01.5", f, st, f"the stored '*name' entry records `{flag}` as its broadcastable flag instead of the current use's `#` flag: after a plain `*name` "
                     "use the binding must be pinned (no longer broadcast against)")
@@ -471,8 +469,9 @@ def check_bind_if_absent(ctx):
                 ctx.ok("C01.5", f.qualname, f"new '*name' binding stored only under the KeyError handler of its lookup: `{short(st, 70)}`")
         elif on_refine_side:
             ctx.ok("C01.5", f.qualname, f"broadcast refinement of an existing (still `#`) '*name' entry: `{short(st, 70)}`")
-        else:
+        elif tnode is not None:
             ctx.bad("C01.5", f, st, "a '*name' binding is overwritten on a path that is neither 'name absent' nor 'existing entry still broadcastable'")
+    need(tnode is not None, "C01.5: test of the previous binding's `#` flag not found")
     # the refinement must be executed on every accepting path of the refinable (previously-#) branch
     store_ids = {n.id for n in stores}
     start = [s_ for k, s_ in tnode.succ if k == true_edge]
